@@ -1529,7 +1529,28 @@ class Compiler:
                 else:
                     idx = self._add_constant(node.left.property.name)
                     self._emit(OpCode.LOAD_CONST, idx)
-                self._compile_expression(node.right)
+                if node.operator == "=":
+                    self._compile_expression(node.right)
+                else:
+                    # Compound assignment: read the current value, apply the operator
+                    self._emit(OpCode.DUP2)
+                    self._emit(OpCode.GET_PROP)
+                    self._compile_expression(node.right)
+                    op = node.operator[:-1]  # Remove '='
+                    op_map = {
+                        "+": OpCode.ADD,
+                        "-": OpCode.SUB,
+                        "*": OpCode.MUL,
+                        "/": OpCode.DIV,
+                        "%": OpCode.MOD,
+                        "&": OpCode.BAND,
+                        "|": OpCode.BOR,
+                        "^": OpCode.BXOR,
+                        "<<": OpCode.SHL,
+                        ">>": OpCode.SHR,
+                        ">>>": OpCode.USHR,
+                    }
+                    self._emit(op_map[op])
                 self._emit(OpCode.SET_PROP)
 
         elif isinstance(node, SequenceExpression):
